@@ -363,6 +363,26 @@ def _():
     m = re.search(r"let hi = _mm256_and_si256\(_mm256_srli_epi16\(input, (\d+)\), lo_mask\);", src("bitops_avx2.rs"))
     return m.group(1) if m else None
 
+# ---------------------------------------------------------------- filter.rs
+@item("countSaturation", "Nat", "65535", "CountFilter: the count is a u16 incremented with saturating_add")
+def _():
+    t = src("filter.rs")
+    m = re.search(r"impl<D> KmerSummarizer<D, (u\d+)> for CountFilter \{.*?let mut count = 0(u\d+);.*?count = count\.(saturating_add|wrapping_add)\(1\);", t, re.S)
+    if not m or m.group(1) != m.group(2) or m.group(3) != "saturating_add":
+        return None
+    return str(2 ** INT_BITS[m.group(1)] - 1)
+
+@item("filterBytesPerUnit", "Nat", "1000000000", "filter_kmers: max_mem = memory_size * 10^9")
+def _():
+    m = re.search(r"let max_mem = memory_size \* 10_usize\.pow\((\d+)\);", src("filter.rs"))
+    return str(10 ** int(m.group(1))) if m else None
+
+# ---------------------------------------------------------------- graph.rs
+@item("nodeIterSkipThreshold", "Nat", "4", "NodeKmerIter::nth: skips of at most this many k-mers step base by base")
+def _():
+    m = re.search(r"fn nth\(&mut self, n: usize\) -> Option<Self::Item> \{\s*if n <= (\d+) \{", src("graph.rs"))
+    return m.group(1) if m else None
+
 def generate():
     lines = ["/-! GENERATED by tools/extract_consts.py from /repo/src — do not edit. -/", "namespace Gen", ""]
     fallbacks = []
